@@ -317,12 +317,714 @@ theorem removeGroups_eq_mergeKeep (mrs : List (Bool × Row)) :
   have := removeGroups_fold mrs {} (by simp)
   simpa [removeGroups, absPrev] using this
 
-theorem merge_refines (col : Str) (code : Val) (m : Option (List Str)) (i : Bool) (t : Table) :
-    mergeImpl col code m i t = mergeSpec col code m i t := by
-  unfold mergeImpl mergeSpec
+
+/-! #### set_durations: the loop over group numbers computes the documented durations -/
+
+theorem tw_toFloat (c : Cell) : (toFloat c).tw = c.tw := by cases c <;> rfl
+theorem endTw_toFloat (o d : Cell) : endTw o (toFloat d) = endTw o d := by simp [endTw, tw_toFloat]
+theorem toFloat_toFloat (c : Cell) : toFloat (toFloat c) = toFloat c := by cases c <;> rfl
+
+/-- the group numbers `_get_remove_groups` can emit from state (`in_group`, `group_count`) -/
+inductive Gen : Bool → Nat → List Nat → Prop
+  | nil (b c) : Gen b c []
+  | other (b c ids) : Gen false c ids → Gen b c (0 :: ids)          -- a row without the event code
+  | start (b c ids) : Gen true (c + 1) ids → Gen b c (0 :: ids)      -- a kept row with the code (count += 1)
+  | drop (c ids) : 1 ≤ c → Gen true c ids → Gen true c (c :: ids)    -- a row equal to its predecessor
+
+theorem gen_of_fold : ∀ (mrs : List (Bool × Row)) (st : GSt), (st.inGroup = true → 1 ≤ st.count) →
+    ∃ ids, (mrs.foldl groupStep st).out.reverse = st.out.reverse ++ ids ∧ Gen st.inGroup st.count ids
+  | [], st, _ => ⟨[], by simp, Gen.nil _ _⟩
+  | mr :: mrs, st, hinv => by
+    obtain ⟨m, r⟩ := mr
+    obtain ⟨ig, cnt, prev, out⟩ := st
+    simp only at hinv
+    rw [List.foldl_cons]
+    by_cases hm : m = true
+    · by_cases hig : ig = true
+      · subst hm; subst hig
+        have hc : 1 ≤ cnt := hinv rfl
+        by_cases hp : prev = some r
+        · have hs : groupStep ⟨true, cnt, prev, out⟩ (true, r) = ⟨true, cnt, some r, cnt :: out⟩ := by
+            simp [groupStep, hp]
+          rw [hs]
+          obtain ⟨ids, h1, h2⟩ := gen_of_fold mrs ⟨true, cnt, some r, cnt :: out⟩ (fun _ => hc)
+          exact ⟨cnt :: ids, by rw [h1]; simp, Gen.drop cnt ids hc h2⟩
+        · have hs : groupStep ⟨true, cnt, prev, out⟩ (true, r) = ⟨true, cnt + 1, some r, 0 :: out⟩ := by
+            simp [groupStep, hp]
+          rw [hs]
+          obtain ⟨ids, h1, h2⟩ := gen_of_fold mrs ⟨true, cnt + 1, some r, 0 :: out⟩ (fun _ => by simp)
+          exact ⟨0 :: ids, by rw [h1]; simp, Gen.start _ _ _ h2⟩
+      · subst hm
+        have hig' : ig = false := by simpa using hig
+        subst hig'
+        have hs : groupStep ⟨false, cnt, prev, out⟩ (true, r) = ⟨true, cnt + 1, some r, 0 :: out⟩ := by
+          simp [groupStep]
+        rw [hs]
+        obtain ⟨ids, h1, h2⟩ := gen_of_fold mrs ⟨true, cnt + 1, some r, 0 :: out⟩ (fun _ => by simp)
+        exact ⟨0 :: ids, by rw [h1]; simp, Gen.start _ _ _ h2⟩
+    · have hm' : m = false := by simpa using hm
+      subst hm'
+      have hs : groupStep ⟨ig, cnt, prev, out⟩ (false, r) = ⟨false, cnt, some r, 0 :: out⟩ := by
+        simp [groupStep]
+      rw [hs]
+      obtain ⟨ids, h1, h2⟩ := gen_of_fold mrs ⟨false, cnt, some r, 0 :: out⟩ (by simp)
+      exact ⟨0 :: ids, by rw [h1]; simp, Gen.other _ _ _ h2⟩
+
+theorem gen_removeGroups (mrs : List (Bool × Row)) : Gen false 0 (removeGroups mrs) := by
+  obtain ⟨ids, h1, h2⟩ := gen_of_fold mrs {} (by simp)
+  simp only [removeGroups, h1]
+  simpa using h2
+
+theorem gen_bound : ∀ {b c ids}, Gen b c ids → ∀ g ∈ ids, g ≠ 0 → (if b then c ≤ g else c < g) := by
+  intro b c ids h
+  induction h with
+  | nil b c => intro g hg; cases hg
+  | other b c ids _ ih =>
+    intro g hg hne
+    rcases List.mem_cons.1 hg with rfl | hg'
+    · exact absurd rfl hne
+    · have := ih g hg' hne
+      simp only [Bool.false_eq_true, if_false] at this
+      cases b <;> simp <;> omega
+  | start b c ids _ ih =>
+    intro g hg hne
+    rcases List.mem_cons.1 hg with rfl | hg'
+    · exact absurd rfl hne
+    · have := ih g hg' hne
+      simp only [if_true] at this
+      cases b <;> simp <;> omega
+  | drop c ids hc _ ih =>
+    intro g hg hne
+    rcases List.mem_cons.1 hg with rfl | hg'
+    · simp
+    · simpa using ih g hg' hne
+
+theorem gen_zip {β} : ∀ {b c ids}, Gen b c ids → ∀ (xs : List β), Gen b c ((ids.zip xs).map Prod.fst) := by
+  intro b c ids h
+  induction h with
+  | nil b c => intro xs; simpa using Gen.nil b c
+  | other b c ids _ ih =>
+    intro xs
+    cases xs with
+    | nil => simpa using Gen.nil b c
+    | cons x xs => simpa using Gen.other b c _ (ih xs)
+  | start b c ids _ ih =>
+    intro xs
+    cases xs with
+    | nil => simpa using Gen.nil b c
+    | cons x xs => simpa using Gen.start b c _ (ih xs)
+  | drop c ids hc _ ih =>
+    intro xs
+    cases xs with
+    | nil => simpa using Gen.nil true c
+    | cons x xs => simpa using Gen.drop c _ hc (ih xs)
+
+def idsOf (rs : List DRow) : List Nat := rs.map (·.1)
+
+/-- the rest of the table after a run of dropped rows: nothing, or it starts with a kept row -/
+def KeptHead (rs : List DRow) : Prop := rs = [] ∨ ∃ r rest, rs = r :: rest ∧ r.1 = 0
+
+theorem idsOf_updateGroupAux (g : Nat) : ∀ rs : List DRow, idsOf (updateGroupAux g rs) = idsOf rs
+  | [] => rfl
+  | [a] => rfl
+  | a :: b :: rest => by
+    unfold updateGroupAux
+    split
+    · split <;> simp [idsOf]
+    · have := idsOf_updateGroupAux g (b :: rest)
+      simp [idsOf] at this ⊢
+      exact this
+
+theorem keptHead_updateGroupAux (g : Nat) (rs : List DRow) (h : KeptHead rs) : KeptHead (updateGroupAux g rs) := by
+  have hi := idsOf_updateGroupAux g rs
+  rcases h with rfl | ⟨r, rest, rfl, hr⟩
+  · left; rfl
+  · right
+    cases hu : updateGroupAux g (r :: rest) with
+    | nil => rw [hu] at hi; simp [idsOf] at hi
+    | cons r' rest' =>
+      rw [hu] at hi
+      simp only [idsOf, List.map_cons, List.cons.injEq] at hi
+      exact ⟨r', rest', rfl, by rw [hi.1]; exact hr⟩
+
+/-- a group number that does not occur changes nothing -/
+theorem updateGroupAux_absent (g : Nat) : ∀ rs : List DRow, g ∉ idsOf rs → updateGroupAux g rs = rs
+  | [], _ => rfl
+  | [a], _ => rfl
+  | a :: b :: rest, h => by
+    have hb : (b.1 == g) = false := by
+      have : b.1 ≠ g := fun hh => h (by simp [idsOf, hh])
+      simpa using this
+    have hrest : g ∉ idsOf (b :: rest) := fun hh => h (by simp [idsOf] at hh ⊢; exact Or.inr hh)
+    unfold updateGroupAux
+    simp only [hb, Bool.false_eq_true, if_false]
+    rw [updateGroupAux_absent g (b :: rest) hrest]
+
+/-- rows that do not carry the group number are passed over -/
+theorem updateGroupAux_skip (g : Nat) : ∀ (pre rest : List DRow), (∀ r ∈ pre, r.1 ≠ g) →
+    (rest = [] ∨ ∃ r rest', rest = r :: rest' ∧ r.1 ≠ g) →
+    updateGroupAux g (pre ++ rest) = pre ++ updateGroupAux g rest
+  | [], rest, _, _ => rfl
+  | [p], rest, _, hrest => by
+    rcases hrest with rfl | ⟨r, rest', rfl, hr⟩
+    · rfl
+    · have : (r.1 == g) = false := by simpa using hr
+      simp [updateGroupAux, this]
+  | p :: q :: pre, rest, hpre, hrest => by
+    have hq : (q.1 == g) = false := by
+      have := hpre q (by simp)
+      simpa using this
+    have ih := updateGroupAux_skip g (q :: pre) rest (fun r hr => hpre r (by simp [List.mem_cons] at hr ⊢; exact Or.inr hr)) hrest
+    simp only [List.cons_append] at ih ⊢
+    rw [updateGroupAux, if_neg (by simp [hq]), ih]
+
+theorem updateGroup_ok (g : Nat) (rs : List DRow) (hg : g ≠ 0) (h : KeptHead rs) :
+    updateGroup g rs = .ok (updateGroupAux g rs) := by
+  rcases h with rfl | ⟨r, rest, rfl, hr⟩
+  · rfl
+  · have : (r.1 == g) = false := by rw [hr]; simpa using (Ne.symm hg)
+    simp [updateGroup, this]
+
+/-- the anchor of a run of rows with group number `c` -/
+def updA (c : Nat) (a : DRow) (run : List DRow) : DRow :=
+  match groupMax c run with
+  | some m => (a.1, a.2.1, anchorDur a.2.1 a.2.2 m)
+  | none => a
+
+theorem updA_fst (c : Nat) (a : DRow) (run : List DRow) : (updA c a run).1 = a.1 := by
+  unfold updA; split <;> rfl
+
+theorem groupMax_append_absent (c : Nat) (run rest : List DRow) (h : c ∉ idsOf rest) :
+    groupMax c (run ++ rest) = groupMax c run := by
+  have : rest.filter (·.1 == c) = [] := by
+    rw [List.filter_eq_nil_iff]
+    intro r hr hc
+    exact h (by simp only [idsOf, List.mem_map]; exact ⟨r, hr, by simpa using hc⟩)
+  simp [groupMax, List.filter_append, this]
+
+/-- the anchor's group number `c`: the anchor row gets its new duration, nothing else changes -/
+theorem updateGroupAux_anchor (c : Nat) (a : DRow) (run rest : List DRow) (ha : a.1 = 0) (hc : c ≠ 0)
+    (hrun : ∀ r ∈ run, r.1 = c) (hk : KeptHead rest) (habs : run ≠ [] → c ∉ idsOf rest) :
+    updateGroupAux c (a :: run ++ rest) = updA c a run :: run ++ updateGroupAux c rest := by
+  cases run with
+  | nil =>
+    have hu : updA c a [] = a := by simp [updA, groupMax, maxList]
+    rw [hu]
+    have := updateGroupAux_skip c [a] rest (by intro r hr; simp at hr; rw [hr, ha]; exact Ne.symm hc)
+      (by rcases hk with rfl | ⟨r, rest', rfl, hr⟩
+          · left; rfl
+          · right; exact ⟨r, rest', rfl, by rw [hr]; exact Ne.symm hc⟩)
+    simpa using this
+  | cons x run' =>
+    have hx : (x.1 == c) = true := by simpa using hrun x (by simp)
+    have hab := habs (by simp)
+    rw [updateGroupAux_absent c rest hab]
+    have hgm : groupMax c (x :: (run' ++ rest)) = groupMax c (x :: run') := by
+      have := groupMax_append_absent c (x :: run') rest hab
+      simpa using this
+    simp only [List.cons_append, updateGroupAux, hx, if_true, hgm, updA]
+    cases groupMax c (x :: run') <;> rfl
+
+theorem loopSeg (c : Nat) (run : List DRow) (hrun : ∀ r ∈ run, r.1 = c) :
+    ∀ (gs : List Nat) (a : DRow) (rest : List DRow), gs.Nodup → 0 ∉ gs → a.1 = 0 → KeptHead rest →
+      (run ≠ [] → c ∉ idsOf rest) →
+      updateLoop gs (a :: run ++ rest)
+        = (updateLoop gs rest).map (fun rest' => (if c ∈ gs then updA c a run else a) :: run ++ rest')
+  | [], a, rest, _, _, _, _, _ => by simp [updateLoop, Except.map]
+  | g :: gs, a, rest, hnd, h0, ha, hk, habs => by
+    have hg0 : g ≠ 0 := fun h => h0 (by simp [h])
+    have hnd' : gs.Nodup := (List.nodup_cons.1 hnd).2
+    have hgn : g ∉ gs := (List.nodup_cons.1 hnd).1
+    have h0' : 0 ∉ gs := fun h => h0 (by simp [h])
+    have hkA : KeptHead (a :: run ++ rest) := Or.inr ⟨a, run ++ rest, rfl, ha⟩
+    rw [updateLoop, updateGroup_ok g _ hg0 hkA, updateLoop, updateGroup_ok g rest hg0 hk]
+    simp only
+    have hk' := keptHead_updateGroupAux g rest hk
+    have hids := idsOf_updateGroupAux g rest
+    by_cases hgc : g = c
+    · subst hgc
+      rw [updateGroupAux_anchor g a run rest ha hg0 hrun hk habs]
+      rw [loopSeg g run hrun gs (updA g a run) (updateGroupAux g rest) hnd' h0' (by rw [updA_fst]; exact ha) hk'
+        (by rw [hids]; exact habs)]
+      simp [hgn]
+    · have hskip := updateGroupAux_skip g (a :: run) rest
+        (by intro r hr
+            rcases List.mem_cons.1 hr with rfl | hr'
+            · rw [ha]; exact Ne.symm hg0
+            · rw [hrun r hr']; exact Ne.symm hgc)
+        (by rcases hk with rfl | ⟨r, rest', rfl, hr⟩
+            · left; rfl
+            · right; exact ⟨r, rest', rfl, by rw [hr]; exact Ne.symm hg0⟩)
+      have hskip' : updateGroupAux g (a :: run ++ rest) = a :: run ++ updateGroupAux g rest := hskip
+      rw [hskip']
+      rw [loopSeg c run hrun gs a (updateGroupAux g rest) hnd' h0' ha hk' (by rw [hids]; exact habs)]
+      have : (c ∈ g :: gs) = (c ∈ gs) := by simp [Ne.symm hgc]
+      simp [this]
+
+
+/-- largest end among the dropped rows at the head (rows as `_update_durations` sees them) -/
+def runEndR : List DRow → Option Int
+  | [] => none
+  | r :: rest =>
+    if r.1 = 0 then none
+    else some (match runEndR rest with | some m => max (endTw r.2.1 r.2.2) m | none => endTw r.2.1 r.2.2)
+
+/-- the documented durations, row by row: a kept row followed by dropped rows lasts until their latest end -/
+def specRows : List DRow → List DRow
+  | [] => []
+  | r :: rest =>
+    (if r.1 = 0 then
+       (match runEndR rest with
+        | some m => (r.1, r.2.1, anchorDur r.2.1 r.2.2 m)
+        | none => r)
+     else r) :: specRows rest
+
+theorem runEndR_keptHead (rest : List DRow) (h : KeptHead rest) : runEndR rest = none := by
+  rcases h with rfl | ⟨r, rest', rfl, hr⟩
+  · rfl
+  · simp [runEndR, hr]
+
+theorem runEndR_run (c : Nat) (hc : c ≠ 0) (rest : List DRow) (hk : KeptHead rest) :
+    ∀ run : List DRow, (∀ r ∈ run, r.1 = c) → runEndR (run ++ rest) = groupMax c run
+  | [], _ => by simp [runEndR_keptHead rest hk, groupMax, maxList]
+  | x :: run', h => by
+    have hx : x.1 = c := h x (by simp)
+    have ih := runEndR_run c hc rest hk run' (fun r hr => h r (by simp [hr]))
+    have hx0 : ¬ x.1 = 0 := by rw [hx]; exact hc
+    have hxc : (x.1 == c) = true := by simpa using hx
+    simp only [List.cons_append, runEndR, hx0, if_false, ih, groupMax, List.filter_cons, hxc, if_true,
+      List.map_cons, maxList]
+    rfl
+
+theorem specRows_run (rest : List DRow) : ∀ run : List DRow, (∀ r ∈ run, r.1 ≠ 0) →
+    specRows (run ++ rest) = run ++ specRows rest
+  | [], _ => rfl
+  | x :: run', h => by
+    have hx : ¬ x.1 = 0 := h x (by simp)
+    simp [specRows, hx, specRows_run rest run' (fun r hr => h r (by simp [hr]))]
+
+theorem specRows_seg (c : Nat) (hc : c ≠ 0) (a : DRow) (run rest : List DRow) (ha : a.1 = 0)
+    (hrun : ∀ r ∈ run, r.1 = c) (hk : KeptHead rest) :
+    specRows (a :: run ++ rest) = updA c a run :: run ++ specRows rest := by
+  have h1 := runEndR_run c hc rest hk run hrun
+  have h2 := specRows_run rest run (fun r hr => by rw [hrun r hr]; exact hc)
+  simp only [List.cons_append, specRows, ha, if_true, h1, h2, updA]
+
+theorem gen_false_keptHead {c : Nat} {ids : List Nat} (h : Gen false c ids) (rs : List DRow) (hrs : idsOf rs = ids) :
+    KeptHead rs := by
+  cases rs with
+  | nil => left; rfl
+  | cons r rest =>
+    right
+    refine ⟨r, rest, rfl, ?_⟩
+    cases h with
+    | nil => simp [idsOf] at hrs
+    | other _ _ ids' _ => simp [idsOf] at hrs; exact hrs.1
+    | start _ _ ids' _ => simp [idsOf] at hrs; exact hrs.1
+
+theorem updateLoop_nil (gs : List Nat) : updateLoop gs [] = .ok [] := by
+  induction gs with
+  | nil => rfl
+  | cons g gs ih => simp [updateLoop, updateGroup, ih]
+
+theorem loop_spec : ∀ {b : Bool} {c : Nat} {ids : List Nat}, Gen b c ids →
+    ∀ (rs : List DRow), idsOf rs = ids → ∀ gs : List Nat, gs.Nodup → 0 ∉ gs → (∀ g ∈ ids, g ≠ 0 → g ∈ gs) →
+      (b = false → updateLoop gs rs = .ok (specRows rs)) ∧
+      (b = true → ∀ (a : DRow) (run : List DRow), a.1 = 0 → (∀ r ∈ run, r.1 = c) → c ≠ 0 → (run ≠ [] → c ∈ gs) →
+          updateLoop gs (a :: run ++ rs) = .ok (specRows (a :: run ++ rs))) := by
+  intro b c ids h
+  induction h with
+  | nil b c =>
+    intro rs hrs gs hnd h0 _
+    have : rs = [] := by cases rs with | nil => rfl | cons _ _ => simp [idsOf] at hrs
+    subst this
+    refine ⟨fun _ => by simp [updateLoop_nil, specRows], fun _ a run ha hrun hc hin => ?_⟩
+    have hk : KeptHead ([] : List DRow) := Or.inl rfl
+    rw [loopSeg c run hrun gs a [] hnd h0 ha hk (fun _ => by simp [idsOf]), updateLoop_nil,
+      specRows_seg c hc a run [] ha hrun hk]
+    cases run with
+    | nil => simp [Except.map, updA, groupMax, maxList, specRows]
+    | cons x run' => simp [Except.map, hin (by simp), specRows]
+  | other b c ids hgen ih =>
+    intro rs hrs gs hnd h0 hcov
+    cases rs with
+    | nil => simp [idsOf] at hrs
+    | cons x rs' =>
+      simp only [idsOf, List.map_cons, List.cons.injEq] at hrs
+      obtain ⟨hx, hrs'⟩ := hrs
+      have hcov' : ∀ g ∈ ids, g ≠ 0 → g ∈ gs := fun g hg => hcov g (by simp [hg])
+      have ih1 := (ih rs' hrs' gs hnd h0 hcov').1 rfl
+      have hk' : KeptHead rs' := gen_false_keptHead hgen rs' hrs'
+      -- the rows from `x` on, on their own
+      have hself : updateLoop gs (x :: rs') = .ok (specRows (x :: rs')) := by
+        have := loopSeg 0 [] (by simp) gs x rs' hnd h0 hx hk' (by simp)
+        simp only [List.nil_append, List.cons_append] at this
+        rw [this, ih1]
+        have hre := runEndR_keptHead rs' hk'
+        simp [Except.map, specRows, hx, hre, updA, groupMax, maxList]
+      refine ⟨fun _ => hself, fun _ a run ha hrun hc hin => ?_⟩
+      have hk : KeptHead (x :: rs') := Or.inr ⟨x, rs', rfl, hx⟩
+      have habs : run ≠ [] → c ∉ idsOf (x :: rs') := by
+        intro _ hmem
+        simp only [idsOf, List.map_cons, List.mem_cons] at hmem
+        rcases hmem with h1 | h1
+        · exact hc (by rw [h1, hx])
+        · have hb := gen_bound hgen c (by rw [← hrs']; exact h1) hc
+          simp at hb
+      rw [loopSeg c run hrun gs a (x :: rs') hnd h0 ha hk habs, hself, specRows_seg c hc a run (x :: rs') ha hrun hk]
+      cases run with
+      | nil => simp [Except.map, updA, groupMax, maxList]
+      | cons y run' => simp [Except.map, hin (by simp)]
+  | start b c ids hgen ih =>
+    intro rs hrs gs hnd h0 hcov
+    cases rs with
+    | nil => simp [idsOf] at hrs
+    | cons x rs' =>
+      simp only [idsOf, List.map_cons, List.cons.injEq] at hrs
+      obtain ⟨hx, hrs'⟩ := hrs
+      have hcov' : ∀ g ∈ ids, g ≠ 0 → g ∈ gs := fun g hg => hcov g (by simp [hg])
+      have hself : updateLoop gs (x :: rs') = .ok (specRows (x :: rs')) := by
+        have := (ih rs' hrs' gs hnd h0 hcov').2 rfl x [] hx (by simp) (by simp) (by simp)
+        simpa using this
+      refine ⟨fun _ => hself, fun _ a run ha hrun hc hin => ?_⟩
+      have hk : KeptHead (x :: rs') := Or.inr ⟨x, rs', rfl, hx⟩
+      have habs : run ≠ [] → c ∉ idsOf (x :: rs') := by
+        intro _ hmem
+        simp only [idsOf, List.map_cons, List.mem_cons] at hmem
+        rcases hmem with h1 | h1
+        · exact hc (by rw [h1, hx])
+        · have hb := gen_bound hgen c (by rw [← hrs']; exact h1) hc
+          simp at hb
+          omega
+      rw [loopSeg c run hrun gs a (x :: rs') hnd h0 ha hk habs, hself, specRows_seg c hc a run (x :: rs') ha hrun hk]
+      cases run with
+      | nil => simp [Except.map, updA, groupMax, maxList]
+      | cons y run' => simp [Except.map, hin (by simp)]
+  | drop c ids hc1 hgen ih =>
+    intro rs hrs gs hnd h0 hcov
+    cases rs with
+    | nil => simp [idsOf] at hrs
+    | cons x rs' =>
+      simp only [idsOf, List.map_cons, List.cons.injEq] at hrs
+      obtain ⟨hx, hrs'⟩ := hrs
+      have hcov' : ∀ g ∈ ids, g ≠ 0 → g ∈ gs := fun g hg => hcov g (by simp [hg])
+      refine ⟨fun hb => (by cases hb), fun _ a run ha hrun hc hin => ?_⟩
+      have hcin : c ∈ gs := hcov c (by simp) hc
+      have := (ih rs' hrs' gs hnd h0 hcov').2 rfl a (run ++ [x]) ha
+        (by intro r hr; rcases List.mem_append.1 hr with h1 | h1
+            · exact hrun r h1
+            · simp at h1; rw [h1]; exact hx)
+        hc (fun _ => hcin)
+      simpa [List.append_assoc] using this
+
+
+theorem foldl_max_le (l : List Nat) : ∀ (i g : Nat), (g ≤ i ∨ g ∈ l) → g ≤ l.foldl max i := by
+  induction l with
+  | nil => intro i g h; rcases h with h | h; exact h; cases h
+  | cons x l ih =>
+    intro i g h
+    rw [List.foldl_cons]
+    apply ih
+    rcases h with h | h
+    · left; exact Nat.le_trans h (Nat.le_max_left i x)
+    · rcases List.mem_cons.1 h with rfl | h'
+      · left; exact Nat.le_max_right i g
+      · right; exact h'
+
+theorem foldl_max_pos (l : List Nat) : ∀ i : Nat, (0 < l.foldl max i) ↔ (0 < i ∨ ∃ g ∈ l, g ≠ 0) := by
+  induction l with
+  | nil => intro i; simp
+  | cons x l ih =>
+    intro i
+    rw [List.foldl_cons, ih]
+    constructor
+    · rintro (h | ⟨g, hg, hne⟩)
+      · by_cases hi : 0 < i
+        · left; exact hi
+        · right; refine ⟨x, by simp, ?_⟩
+          have : i = 0 := by omega
+          subst this
+          simp at h; omega
+      · right; exact ⟨g, by simp [hg], hne⟩
+    · rintro (h | ⟨g, hg, hne⟩)
+      · left; exact Nat.lt_of_lt_of_le h (Nat.le_max_left i x)
+      · rcases List.mem_cons.1 hg with rfl | hg'
+        · left; exact Nat.lt_of_lt_of_le (Nat.pos_of_ne_zero hne) (Nat.le_max_right i g)
+        · right; exact ⟨g, hg', hne⟩
+
+theorem runEndR_zip : ∀ (groups : List Nat) (O D : Column),
+    runEndR (groups.zip (O.zip (D.map toFloat))) = runEnd ((groups.map (· == 0)).zip (O.zip D))
+  | [], _, _ => by simp [runEndR, runEnd]
+  | g :: gs, [], _ => by simp [runEndR, runEnd]
+  | g :: gs, o :: O, [] => by simp [runEndR, runEnd]
+  | g :: gs, o :: O, d :: D => by
+    have ih := runEndR_zip gs O D
+    by_cases hg : g = 0
+    · subst hg; simp [runEndR, runEnd]
+    · have : (g == 0) = false := by simpa using hg
+      simp [runEndR, runEnd, hg, this, ih, endTw_toFloat]
+      rfl
+
+theorem specRows_zip : ∀ (groups : List Nat) (O D : Column),
+    (specRows (groups.zip (O.zip (D.map toFloat)))).map (·.2.2) = specDur ((groups.map (· == 0)).zip (O.zip D))
+  | [], _, _ => by simp [specRows, specDur]
+  | g :: gs, [], _ => by simp [specRows, specDur]
+  | g :: gs, o :: O, [] => by simp [specRows, specDur]
+  | g :: gs, o :: O, d :: D => by
+    have ih := specRows_zip gs O D
+    have hr := runEndR_zip gs O D
+    by_cases hg : g = 0
+    · subst hg
+      simp only [List.map_cons, List.zip_cons_cons, specRows, if_true, hr, specDur, BEq.rfl, ih]
+      cases runEnd ((gs.map (· == 0)).zip (O.zip D)) <;> simp
+    · have : (g == 0) = false := by simpa using hg
+      simp [specRows, specDur, hg, this, ih]
+
+theorem mergePlan_eq (mrs : List (Bool × Row)) : mergePlanImpl mrs = mergePlanSpec mrs := by
+  have hkeep := removeGroups_eq_mergeKeep mrs
+  unfold mergePlanImpl mergePlanSpec
+  simp only
+  rw [← hkeep]
   congr 1
-  funext mrs
-  exact removeGroups_eq_mergeKeep mrs
+  funext O D
+  have hgen := gen_removeGroups mrs
+  by_cases hmx : 0 < (removeGroups mrs).foldl max 0
+  · have hany : ((removeGroups mrs).map (· == 0)).any (!·) = true := by
+      obtain h := (foldl_max_pos (removeGroups mrs) 0).1 hmx
+      rcases h with h | ⟨g, hg, hne⟩
+      · omega
+      · simp only [List.any_map, List.any_eq_true]
+        exact ⟨g, hg, by simpa using hne⟩
+    have hloop := (loop_spec (gen_zip hgen (O.zip (D.map toFloat)))
+      ((removeGroups mrs).zip (O.zip (D.map toFloat))) rfl
+      (List.range' 1 ((removeGroups mrs).foldl max 0)) (List.nodup_range' ..) (by simp [List.mem_range'_1])
+      (by
+        intro g hg hne
+        have hg' : g ∈ removeGroups mrs := by
+          simp only [List.mem_map] at hg
+          obtain ⟨p, hp, rfl⟩ := hg
+          exact (List.of_mem_zip hp).1
+        have := foldl_max_le (removeGroups mrs) 0 g (Or.inr hg')
+        simp only [List.mem_range'_1]
+        omega)).1 rfl
+    simp only [gt_iff_lt, hmx, if_true, hloop, hany, specRows_zip]
+  · have hany : ((removeGroups mrs).map (· == 0)).any (!·) = false := by
+      simp only [List.any_map, List.any_eq_false]
+      intro g hg
+      have : ¬ (∃ g ∈ removeGroups mrs, g ≠ 0) := fun h => hmx ((foldl_max_pos _ 0).2 (Or.inr h))
+      have hz : g = 0 := by
+        apply Decidable.byContradiction
+        intro hne; exact this ⟨g, hg, hne⟩
+      simp [hz]
+    simp [hmx, hany]
+
+theorem merge_refines (col : Str) (code : Val) (m : Option (List Str)) (sd i : Bool) (t : Table) :
+    mergeImpl col code m sd i t = mergeSpec col code m sd i t := by
+  have : mergePlanImpl = mergePlanSpec := funext mergePlan_eq
+  unfold mergeImpl mergeSpec
+  rw [this]
+
+
+/-! ### remap_columns: the KeyMap built by `update` looks up the first entry of a key -/
+
+def dictOf : Nat → List (List Str × List Cell) → List (List Str × Nat)
+  | _, [] => []
+  | i, e :: fs => (e.1, i) :: dictOf (i + 1) fs
+
+theorem dictOf_append (e : List Str × List Cell) : ∀ (i : Nat) (fs : List (List Str × List Cell)),
+    dictOf i (fs ++ [e]) = dictOf i fs ++ [(e.1, i + fs.length)]
+  | i, [] => by simp [dictOf]
+  | i, f :: fs => by
+    simp only [List.cons_append, dictOf, dictOf_append e (i + 1) fs, List.length_cons, List.cons.injEq, true_and]
+    congr 3
+    omega
+
+theorem lookup_dictOf (k : List Str) : ∀ (i : Nat) (fs : List (List Str × List Cell)),
+    (dictOf i fs).lookup k = (fs.findIdx? (fun e => k == e.1)).map (· + i)
+  | i, [] => by simp [dictOf]
+  | i, f :: fs => by
+    simp only [dictOf, List.lookup_cons, List.findIdx?_cons]
+    cases h : k == f.1
+    · simp only [lookup_dictOf k (i + 1) fs, Bool.false_eq_true, if_false, Option.map_map]
+      congr 1
+      funext n
+      simp only [Function.comp]
+      omega
+    · simp
+
+theorem lookup_dictOf_isSome (k : List Str) (fs : List (List Str × List Cell)) :
+    ((dictOf 0 fs).lookup k).isSome = (fs.map (·.1)).contains k := by
+  rw [lookup_dictOf]
+  induction fs with
+  | nil => simp
+  | cons f fs ih =>
+    simp only [List.findIdx?_cons, List.map_cons, List.contains_cons]
+    cases h : k == f.1
+    · simp only [Bool.false_eq_true, if_false, Bool.false_or]
+      simpa using ih
+    · simp
+
+theorem build_rep : ∀ (es fs : List (List Str × List Cell)),
+    es.foldl keyMapStep ⟨dictOf 0 fs, fs.map (·.2)⟩
+      = ⟨dictOf 0 (fs ++ firstEntries (fs.map (·.1)) es), (fs ++ firstEntries (fs.map (·.1)) es).map (·.2)⟩
+  | [], fs => by simp [firstEntries]
+  | e :: es, fs => by
+    rw [List.foldl_cons]
+    have hc := lookup_dictOf_isSome e.1 fs
+    cases hs : (fs.map (·.1)).contains e.1
+    · rw [hs] at hc
+      have hstep : keyMapStep ⟨dictOf 0 fs, fs.map (·.2)⟩ e
+          = ⟨dictOf 0 (fs ++ [e]), (fs ++ [e]).map (·.2)⟩ := by
+        simp [keyMapStep, hc, dictOf_append]
+      have hf : firstEntries (fs.map (·.1)) (e :: es) = e :: firstEntries (fs.map (·.1) ++ [e.1]) es := by
+        simp only [firstEntries, hs, Bool.false_eq_true, if_false]
+      rw [hstep, build_rep es (fs ++ [e]), hf]
+      simp [List.append_assoc]
+    · rw [hs] at hc
+      have hstep : keyMapStep ⟨dictOf 0 fs, fs.map (·.2)⟩ e = ⟨dictOf 0 fs, fs.map (·.2)⟩ := by
+        simp [keyMapStep, hc]
+      have hf : firstEntries (fs.map (·.1)) (e :: es) = firstEntries (fs.map (·.1)) es := by
+        simp only [firstEntries, hs, if_true]
+      rw [hstep, build_rep es fs, hf]
+
+theorem remap_refines (src dst : List Str) (ml : List (List Val)) (ign : Bool) (is : Option (List Str))
+    (t : Table) : remapImpl src dst ml ign is t = remapSpec src dst ml ign is t := by
+  unfold remapImpl remapSpec
+  split
+  · rfl
+  · have h := build_rep (mapEntries src.length (src.length + dst.length) ml) []
+    simp only [dictOf, List.map_nil, List.nil_append] at h
+    have h' : buildKeyMap (mapEntries src.length (src.length + dst.length) ml)
+        = ⟨dictOf 0 (firstEntries [] (mapEntries src.length (src.length + dst.length) ml)),
+           (firstEntries [] (mapEntries src.length (src.length + dst.length) ml)).map (·.2)⟩ := h
+    simp only [h']
+    congr 1
+    funext k
+    rw [lookup_dictOf]
+    cases (firstEntries [] (mapEntries src.length (src.length + dst.length) ml)).findIdx? (fun e => k == e.1) <;> simp
+
+
+/-! ### split_rows: assigning the new frame's columns one after the other gives the documented columns -/
+
+def tab (H : List Str) (f : Str → Column) : Table := H.map fun h => (h, f h)
+
+theorem header_tab (H : List Str) (f : Str → Column) : header (tab H f) = H := by
+  simp [header, tab, List.map_map, Function.comp_def]
+
+theorem setCol_tab (H : List Str) (f : Str → Column) (n : Str) (c : Column) :
+    setCol (tab H f) n c = tab (if n ∈ H then H else H ++ [n]) (fun h => if h = n then c else f h) := by
+  unfold setCol
+  rw [header_tab]
+  by_cases hn : n ∈ H
+  · simp only [hn, if_true, tab, List.map_map]
+    apply List.map_congr_left
+    intro h _
+    simp only [Function.comp]
+    split <;> rfl
+  · simp only [hn, if_false, tab, List.map_append, List.map_cons, List.map_nil, if_true]
+    congr 1
+    apply List.map_congr_left
+    intro h hh
+    have : h ≠ n := fun e => hn (e ▸ hh)
+    simp [this]
+
+theorem setCols_tab : ∀ (copies : List (Str × Column)) (H : List Str) (f : Str → Column),
+    (∀ p ∈ copies, p.1 ∈ H) →
+    setCols (tab H f) copies
+      = tab H (fun h => match copies.reverse.lookup h with | some c => c | none => f h)
+  | [], H, f, _ => by simp [setCols]
+  | (n, c) :: rest, H, f, hmem => by
+    have hn : n ∈ H := hmem (n, c) (by simp)
+    rw [setCols, setCol_tab, if_pos hn, setCols_tab rest H _ (fun p hp => hmem p (by simp [hp]))]
+    unfold tab
+    apply List.map_congr_left
+    intro h _
+    simp only [List.reverse_cons, List.lookup_append, Prod.mk.injEq, true_and]
+    cases rest.reverse.lookup h with
+    | some c' => simp
+    | none =>
+      by_cases hh : h = n
+      · subst hh; simp [List.lookup]
+      · have : (h == n) = false := by simpa using hh
+        simp [List.lookup, this, hh]
+
+theorem lookupAll_names (t : Table) : ∀ (cs : List Str) (copies : List (Str × Column)),
+    lookupAll t cs = .ok copies → ∀ p ∈ copies, p.1 ∈ header t
+  | [], copies, h => by simp [lookupAll] at h; subst h; intro p hp; cases hp
+  | c :: cs, copies, h => by
+    unfold lookupAll at h
+    cases hl : t.lookup c with
+    | none => rw [hl] at h; simp at h
+    | some col =>
+      rw [hl] at h
+      cases hr : lookupAll t cs with
+      | error e => rw [hr] at h; simp at h
+      | ok r =>
+        rw [hr] at h
+        simp only [Except.ok.injEq] at h
+        subst h
+        intro p hp
+        rcases List.mem_cons.1 hp with rfl | hp'
+        · apply Decidable.byContradiction
+          intro hn
+          rw [(lookup_none_iff t c).2 hn] at hl
+          cases hl
+        · exact lookupAll_names t cs r hr p hp'
+
+theorem eventTable_refines (t : Table) (n : Nat) (anchor : Str) (ev : Str × SplitEvent)
+    (hon : onsetName ∈ header t) (hdur : durationName ∈ header t) :
+    eventTableImpl t n anchor ev = eventTableSpec t n anchor ev := by
+  unfold eventTableImpl eventTableSpec
+  cases addSources t (toNumericCol ((t.lookup onsetName).getD [])) ev.2.onsetSrc with
+  | error e => rfl
+  | ok onsets =>
+    simp only
+    cases addSources t (List.replicate n (Cell.int 0)) ev.2.duration with
+    | error e => rfl
+    | ok durs =>
+      simp only
+      cases hla : lookupAll t (ev.2.copy.getD []) with
+      | error e => rfl
+      | ok copies =>
+        simp only
+        have hnames := lookupAll_names t _ copies hla
+        have h0 : ((header t).map fun h => (h, List.replicate n Cell.nan)) = tab (header t) (fun _ => List.replicate n Cell.nan) := rfl
+        rw [h0, setCol_tab, if_pos hon, setCol_tab, setCol_tab]
+        have hdur' : durationName ∈ (if anchor ∈ header t then header t else header t ++ [anchor]) := by
+          split
+          · exact hdur
+          · simp [hdur]
+        rw [if_pos hdur']
+        rw [setCols_tab copies _ _ (by
+          intro p hp
+          have := hnames p hp
+          split
+          · exact this
+          · simp [this])]
+        rfl
+
+theorem splitCore_congr (mk1 mk2 : Table → Nat → Str → Str × SplitEvent → Except OpErr Table)
+    (h : ∀ t n a ev, onsetName ∈ header t → durationName ∈ header t → mk1 t n a ev = mk2 t n a ev)
+    (anchor : Str) (events : List (Str × SplitEvent)) (rp : Bool) (t : Table) :
+    splitCore mk1 anchor events rp t = splitCore mk2 anchor events rp t := by
+  unfold splitCore
+  by_cases h1 : (header t).contains onsetName = true
+  · by_cases h2 : (header t).contains durationName = true
+    · have hon : onsetName ∈ header t := by simpa using h1
+      have hdu : durationName ∈ header t := by simpa using h2
+      have hf : mk1 t (colD t onsetName).length anchor = mk2 t (colD t onsetName).length anchor :=
+        funext fun ev => h t _ anchor ev hon hdu
+      simp only [hf]
+    · have e1 : (!(header t).contains onsetName) = false := by rw [h1]; rfl
+      have e2 : (!(header t).contains durationName) = true := by simpa using h2
+      simp only [e1, e2, Bool.false_eq_true, if_false, if_true]
+  · have e1 : (!(header t).contains onsetName) = true := by simpa using h1
+    simp only [e1, if_true]
+
+theorem split_refines (anchor : Str) (events : List (Str × SplitEvent)) (rp : Bool) (t : Table) :
+    splitImpl anchor events rp t = splitSpec anchor events rp t :=
+  splitCore_congr eventTableImpl eventTableSpec
+    (fun t n a ev hon hdu => eventTable_refines t n a ev hon hdu) anchor events rp t
 
 /-! ### running validated lists -/
 
@@ -347,7 +1049,7 @@ theorem factorLoop_ok (col : Str) :
     exact ⟨t', by simp [factorLoop, hc, ht']⟩
 
 /-- what validation guarantees about a modelled operation (`validate_input_data`) -/
-def inputOk (o : Op) : Prop := inputDataErrs (.modelled o) = []
+def inputOk (o : Op) : Prop := inputDataErrs o = []
 
 theorem factor_lengths (col : Str) (values names : Option (List Str)) (c0 : Column)
     (h : factorInputErrs values names = []) :
@@ -372,8 +1074,217 @@ theorem factor_lengths (col : Str) (values names : Option (List Str)) (c0 : Colu
         simp [this] at h
       simp [factorValues, hv, hl]
 
+
+theorem merge_runs (c : Str) (code : Val) (m : Option (List Str)) (sd i : Bool) (t : Table)
+    (hc : c ∈ header t) (hm : ∀ e ∈ m.getD [], e ∈ header t)
+    (hsd : sd = true → onsetName ∈ header t ∧ durationName ∈ header t)
+    (hk : sd = true → numericCol (colD t onsetName) = true ∧ numericCol (colD t durationName) = true) :
+    ∃ t', mergeImpl c code m sd i t = .ok t' := by
+  rw [merge_refines]
+  obtain ⟨c0, hc0⟩ := lookup_some_of_mem t c hc
+  have hcon : (header t).contains c = true := by simpa using hc
+  have hmiss : ((m.getD []).filter fun e => !(header t).contains e) = [] := by
+    rw [List.filter_eq_nil_iff]
+    intro e he
+    simpa using hm e he
+  unfold mergeSpec mergeCore
+  cases sd with
+  | false =>
+    simp only [hcon, hmiss, hc0, Bool.not_true, Bool.and_false, Bool.false_and, Bool.false_eq_true, if_false,
+      List.isEmpty_nil, Bool.not_false, if_true]
+    split <;> exact ⟨_, rfl⟩
+  | true =>
+    obtain ⟨ho, hd⟩ := hsd rfl
+    obtain ⟨hno, hnd⟩ := hk rfl
+    have hoc : (header t).contains onsetName = true := by simpa using ho
+    have hdc : (header t).contains durationName = true := by simpa using hd
+    simp only [colD] at hno hnd
+    simp only [hcon, hoc, hdc, hmiss, hc0, Bool.not_true, Bool.and_false,
+      Bool.false_eq_true, if_false, List.isEmpty_nil, hno, hnd, Bool.or_self]
+    split
+    · exact ⟨_, rfl⟩
+    · simp only [mergePlanSpec]
+      generalize (mergeKeep none _).any _ = b
+      cases b <;> exact ⟨_, rfl⟩
+
+/-! #### remap_columns runs when the keys are there -/
+
+theorem firstEntries_any (k : List Str) : ∀ (seen : List (List Str)) (es : List (List Str × List Cell)),
+    es.any (fun e => k == e.1) = true → seen.contains k = true ∨ (firstEntries seen es).any (fun e => k == e.1) = true
+  | _, [], h => by simp at h
+  | seen, e :: es, h => by
+    simp only [List.any_cons, Bool.or_eq_true] at h
+    unfold firstEntries
+    cases hs : seen.contains e.1
+    · simp only [Bool.false_eq_true, if_false, List.any_cons, Bool.or_eq_true]
+      rcases h with h | h
+      · right; left; exact h
+      · rcases firstEntries_any k (seen ++ [e.1]) es h with h' | h'
+        · simp only [List.contains_eq_mem, List.mem_append, List.mem_singleton, decide_eq_true_eq] at h'
+          rcases h' with h' | h'
+          · left; simpa using h'
+          · right; left; simpa using h'
+        · right; right; exact h'
+    · simp only [if_true]
+      rcases h with h | h
+      · left
+        have : k = e.1 := by simpa using h
+        rw [this]; exact hs
+      · exact firstEntries_any k seen es h
+
+theorem findIdx?_lt {α} (p : α → Bool) : ∀ (xs : List α), xs.any p = true → ∃ i, xs.findIdx? p = some i ∧ i < xs.length
+  | [], h => by simp at h
+  | x :: xs, h => by
+    simp only [List.findIdx?_cons]
+    cases hp : p x
+    · simp only [List.any_cons, hp, Bool.false_or] at h
+      obtain ⟨i, hi, hlt⟩ := findIdx?_lt p xs h
+      exact ⟨i + 1, by simp [hi], by simp; omega⟩
+    · exact ⟨0, by simp, by simp⟩
+
+theorem length_rowsOf (cols : List (List Cell)) (n : Nat) : (rowsOf cols n).length = n := by
+  simp [rowsOf]
+
+theorem remap_runs (s d : List Str) (ml : List (List Val)) (i : Bool) (is : Option (List Str)) (t : Table)
+    (hs : ∀ n ∈ s, n ∈ header t) (hk : kindOk (.remapColumns s d ml i is) t = true) :
+    ∃ t', remapImpl s d ml i is t = .ok t' := by
+  rw [remap_refines]
+  simp only [kindOk, Bool.and_eq_true] at hk
+  obtain ⟨hshape, hrest⟩ := hk
+  have hsrc : (s.any fun c => !(header t).contains c) = false := by
+    simp only [List.any_eq_false]; intro c hc; simpa using hs c hc
+  have hint : ((is.getD []).any fun c => !(header t).contains c) = false := by
+    simp only [List.any_eq_false]
+    intro c hc
+    simp only [remapShapeOk, Bool.and_eq_true, List.all_eq_true] at hshape
+    have : c ∈ s := by simpa using hshape.2 c hc
+    simpa using hs c this
+  unfold remapSpec remapCore
+  simp only [hshape, Bool.not_true, Bool.false_eq_true, if_false, hsrc, hint]
+  simp only [colD] at hrest
+  cases hme : mapExcept (fun c => mapExcept (sourceCell ((is.getD []).contains c)) ((t.lookup c).getD [])) s with
+  | error e => rw [hme] at hrest; simp at hrest
+  | ok srcCols =>
+    rw [hme] at hrest
+    simp only
+    cases hi : i
+    · subst hi
+      simp only [Bool.false_or, List.all_eq_true] at hrest
+      have hfound : ((rowsOf srcCols (srcCols.headD []).length).map fun r =>
+          ((firstEntries [] (mapEntries s.length (s.length + d.length) ml)).findIdx? (fun e => r.map pyStr == e.1)).bind
+            (fun x => (colMapRows ((firstEntries [] (mapEntries s.length (s.length + d.length) ml)).map (·.2)) d.length)[x]?)).any
+          Option.isNone = false := by
+        simp only [List.any_map, List.any_eq_false]
+        intro r hr
+        have hany := hrest r hr
+        rcases firstEntries_any (r.map pyStr) [] _ hany with h' | h'
+        · simp at h'
+        · obtain ⟨idx, hidx, hlt⟩ := findIdx?_lt _ _ h'
+          have hlen : idx < (colMapRows ((firstEntries [] (mapEntries s.length (s.length + d.length) ml)).map (·.2)) d.length).length := by
+            simp only [colMapRows, length_rowsOf, List.length_map]; exact hlt
+          simp [Function.comp, hidx, List.getElem?_eq_getElem hlen]
+      simp only [hfound, Bool.not_false, Bool.and_false, Bool.false_eq_true, if_false]
+      exact ⟨_, rfl⟩
+    · simp only [Bool.not_true, Bool.false_and, Bool.false_eq_true, if_false]
+      exact ⟨_, rfl⟩
+
+
+/-! #### split_rows runs on numeric time columns -/
+
+theorem mem_sourceNames (name : Str) (vs : List Val) : name ∈ sourceNames vs ↔ Cell.str name ∈ vs := by
+  induction vs with
+  | nil => simp [sourceNames]
+  | cons v vs ih =>
+    simp only [sourceNames] at ih ⊢
+    cases v <;> simp [ih]
+
+theorem addSources_ok (t : Table) : ∀ (vs : List Val) (acc : Column), (∀ v ∈ vs, v ≠ Cell.nan) →
+    (∀ name ∈ sourceNames vs, name ∈ header t ∧ numericCol (colD t name) = true) →
+    ∃ c, addSources t acc vs = .ok c
+  | [], acc, _, _ => ⟨acc, rfl⟩
+  | v :: vs, acc, hnan, hsrc => by
+    have hnan' : ∀ v' ∈ vs, v' ≠ Cell.nan := fun v' hv' => hnan v' (by simp [hv'])
+    have hsrc' : ∀ name ∈ sourceNames vs, name ∈ header t ∧ numericCol (colD t name) = true := by
+      intro name hn
+      exact hsrc name (by rw [mem_sourceNames] at hn ⊢; simp [hn])
+    cases v with
+    | str name =>
+      obtain ⟨hmem, hnum⟩ := hsrc name (by rw [mem_sourceNames]; simp)
+      obtain ⟨c, hc⟩ := lookup_some_of_mem t name hmem
+      simp only [colD, hc, Option.getD_some] at hnum
+      obtain ⟨r, hr⟩ := addSources_ok t vs (List.zipWith numAdd acc (toNumericCol c)) hnan' hsrc'
+      exact ⟨r, by simp [addSources, hc, hnum, hr]⟩
+    | int k =>
+      obtain ⟨r, hr⟩ := addSources_ok t vs (acc.map (numAdd · (.int k))) hnan' hsrc'
+      exact ⟨r, by simp [addSources, hr]⟩
+    | flt h =>
+      obtain ⟨r, hr⟩ := addSources_ok t vs (acc.map (numAdd · (.flt h))) hnan' hsrc'
+      exact ⟨r, by simp [addSources, hr]⟩
+    | nan => exact absurd rfl (hnan Cell.nan (by simp))
+
+theorem lookupAll_ok (t : Table) : ∀ cs : List Str, (∀ c ∈ cs, c ∈ header t) → ∃ r, lookupAll t cs = .ok r
+  | [], _ => ⟨[], rfl⟩
+  | c :: cs, h => by
+    obtain ⟨col, hc⟩ := lookup_some_of_mem t c (h c (by simp))
+    obtain ⟨r, hr⟩ := lookupAll_ok t cs (fun c' hc' => h c' (by simp [hc']))
+    exact ⟨(c, col) :: r, by simp [lookupAll, hc, hr]⟩
+
+theorem eventTables_ok (mk : Str × SplitEvent → Except OpErr Table) :
+    ∀ evs : List (Str × SplitEvent), (∀ e ∈ evs, ∃ te, mk e = .ok te) → ∃ r, eventTables mk evs = .ok r
+  | [], _ => ⟨[], rfl⟩
+  | e :: es, h => by
+    obtain ⟨te, hte⟩ := h e (by simp)
+    obtain ⟨r, hr⟩ := eventTables_ok mk es (fun e' he' => h e' (by simp [he']))
+    exact ⟨te :: r, by simp [eventTables, hte, hr]⟩
+
+theorem split_runs (a : Str) (evs : List (Str × SplitEvent)) (rp : Bool) (t : Table)
+    (hc : ∀ n ∈ namedCols (.splitRows a evs rp), n ∈ header t) (hk : kindOk (.splitRows a evs rp) t = true) :
+    ∃ t', splitImpl a evs rp t = .ok t' := by
+  rw [split_refines]
+  simp only [kindOk, Bool.and_eq_true, List.all_eq_true] at hk
+  obtain ⟨⟨⟨ha, hno⟩, hnd⟩, hev⟩ := hk
+  have hon : (header t).contains onsetName = true := by simpa using hc onsetName (by simp [namedCols])
+  have hdu : (header t).contains durationName = true := by simpa using hc durationName (by simp [namedCols])
+  have ha' : ¬ a = onsetName := by simpa using ha
+  have hevs : ∀ e ∈ evs, ∃ te, eventTableSpec t (colD t onsetName).length a e = .ok te := by
+    intro e he
+    obtain ⟨hnum, hnan⟩ := hev e he
+    have hsrc : ∀ vs, (∀ v ∈ vs, v ∈ e.2.onsetSrc ++ e.2.duration) →
+        ∀ name ∈ sourceNames vs, name ∈ header t ∧ numericCol (colD t name) = true := by
+      intro vs hvs name hn
+      have hstr : Cell.str name ∈ e.2.onsetSrc ++ e.2.duration := hvs _ ((mem_sourceNames name vs).1 hn)
+      have hin : name ∈ sourceNames e.2.onsetSrc ++ sourceNames e.2.duration := by
+        rcases List.mem_append.1 hstr with h | h
+        · exact List.mem_append.2 (Or.inl ((mem_sourceNames _ _).2 h))
+        · exact List.mem_append.2 (Or.inr ((mem_sourceNames _ _).2 h))
+      refine ⟨hc name ?_, hnum name hin⟩
+      simp only [namedCols, List.mem_cons, List.mem_flatMap]
+      right; right
+      exact ⟨e, he, by
+        rcases List.mem_append.1 hin with h | h
+        · simp [h]
+        · simp [h]⟩
+    have hnan' : ∀ v ∈ e.2.onsetSrc ++ e.2.duration, v ≠ Cell.nan := by
+      intro v hv; simpa using hnan v hv
+    obtain ⟨on, hon'⟩ := addSources_ok t e.2.onsetSrc (toNumericCol ((t.lookup onsetName).getD []))
+      (fun v hv => hnan' v (by simp [hv])) (hsrc _ (fun v hv => by simp [hv]))
+    obtain ⟨du, hdu'⟩ := addSources_ok t e.2.duration (List.replicate (colD t onsetName).length (Cell.int 0))
+      (fun v hv => hnan' v (by simp [hv])) (hsrc _ (fun v hv => by simp [hv]))
+    obtain ⟨cp, hcp⟩ := lookupAll_ok t (e.2.copy.getD []) (by
+      intro c hcm
+      apply hc
+      simp only [namedCols, List.mem_cons, List.mem_flatMap]
+      right; right
+      exact ⟨e, he, by simp [hcm]⟩)
+    simp only [eventTableSpec, hon', hdu', hcp]
+    exact ⟨_, rfl⟩
+  obtain ⟨r, hr⟩ := eventTables_ok _ evs hevs
+  unfold splitSpec splitCore
+  simp only [hon, hdu, Bool.not_true, Bool.false_eq_true, if_false, ha', decide_false, hno, hnd, Bool.or_self, hr]
+  exact ⟨_, rfl⟩
+
 theorem op_runs (o : Op) (t : Table) (hv : inputOk o)
-    (hc : ∀ n ∈ namedCols o, n ∈ header t) : ∃ t', opImpl o t = (o, .ok t') := by
+    (hc : ∀ n ∈ namedCols o, n ∈ header t) (hk : kindOk o t = true) : ∃ t', opImpl o t = (o, .ok t') := by
   cases o with
   | removeRows c vs =>
     simp only [opImpl, removeRowsImpl]
@@ -418,27 +1329,28 @@ theorem op_runs (o : Op) (t : Table) (hv : inputOk o)
     have hlen := factor_lengths c vs ns c0 (by simpa [inputOk, inputDataErrs] using hv)
     obtain ⟨t', ht'⟩ := factorLoop_ok c _ _ t hm hlen
     exact ⟨t', by simp only [opImpl, factorImpl, hc0, ht']⟩
-  | mergeConsecutive c code m i =>
-    have hm : c ∈ header t := hc c (by simp [namedCols])
-    obtain ⟨c0, hc0⟩ := lookup_some_of_mem t c hm
-    have hcon : (header t).contains c = true := by simpa using hm
-    have hmiss : ((m.getD []).filter fun e => !(header t).contains e) = [] := by
-      rw [List.filter_eq_nil_iff]
-      intro e he
-      simpa using hc e (by simp [namedCols, he])
-    simp only [opImpl, mergeImpl, mergeCore, hcon, hmiss, hc0, Bool.not_true, Bool.and_false,
-      Bool.false_eq_true, if_false, List.isEmpty_nil]
-    split <;> exact ⟨_, rfl⟩
+  | mergeConsecutive c code m sd i =>
+    obtain ⟨t', ht'⟩ := merge_runs c code m sd i t (hc c (by simp [namedCols]))
+      (fun e he => hc e (by simp [namedCols, he]))
+      (fun hsd => ⟨hc _ (by simp [namedCols, hsd]), hc _ (by simp [namedCols, hsd])⟩)
+      (fun hsd => by simpa [kindOk, hsd] using hk)
+    exact ⟨t', by simp only [opImpl, ht']⟩
+  | remapColumns s d ml i is =>
+    obtain ⟨t', ht'⟩ := remap_runs s d ml i is t (fun n hn => hc n (by simpa [namedCols] using hn)) hk
+    exact ⟨t', by simp only [opImpl, ht']⟩
+  | splitRows a evs rp =>
+    obtain ⟨t', ht'⟩ := split_runs a evs rp t hc hk
+    exact ⟨t', by simp only [opImpl, ht']⟩
 
 theorem runs_ok : ∀ (ops : List Op) (t : Table), (∀ o ∈ ops, inputOk o) → hasColumns ops t = true →
     ∃ t', runSt ops t = (ops, .ok t')
   | [], t, _, _ => ⟨t, rfl⟩
   | o :: os, t, hv, hh => by
     simp only [hasColumns, Bool.and_eq_true, decide_eq_true_eq, List.all_eq_true] at hh
-    obtain ⟨⟨hnd, hnamed⟩, hrest⟩ := hh
+    obtain ⟨⟨⟨hnd, hnamed⟩, hkind⟩, hrest⟩ := hh
     have hnamed' : ∀ n ∈ namedCols o, n ∈ header (prep t) := by
       intro n hn; rw [header_prep]; simpa using hnamed n hn
-    obtain ⟨t1, ht1⟩ := op_runs o (prep t) (hv o (by simp)) hnamed'
+    obtain ⟨t1, ht1⟩ := op_runs o (prep t) (hv o (by simp)) hnamed' hkind
     rw [ht1] at hrest
     obtain ⟨t', ht'⟩ := runs_ok os (post t1) (fun o' ho' => hv o' (by simp [ho'])) hrest
     refine ⟨t', ?_⟩
@@ -455,15 +1367,8 @@ theorem errsFrom_nil {α} (f : α → List ErrKind) :
     · exact h.1
     · exact errsFrom_nil f (i + 1) ys h.2 x hx'
 
-theorem toOps_eq : ∀ (pops : List POp) (ops : List Op), toOps pops = some ops → pops = ops.map POp.modelled
-  | [], ops, h => by simp [toOps] at h; subst h; rfl
-  | .modelled o :: ps, ops, h => by
-    simp only [toOps, Option.map_eq_some_iff] at h
-    obtain ⟨os, hos, rfl⟩ := h
-    simp [toOps_eq ps os hos]
-  | .other _ _ :: _, ops, h => by simp [toOps] at h
 
-/-! ## The property -/
+/-! ## The property (all eight operations) -/
 
 /-- **No operation changes its parameters**, whatever the table, whatever the list, also when an exception
 escapes: the operations a dispatcher holds after `run_operations` are the ones it was built with. -/
@@ -471,16 +1376,20 @@ theorem state_constant (ops : List Op) (t : Table) : (runSt ops t).1 = ops :=
   runWith_fst opImpl opImpl_fst ops t
 
 /-- conditions under which the code's way of computing an operation is its documented meaning:
-`remove_values` is not empty (PARAMS: minItems 1); explicit factor names do not reuse the factored column -/
+`remove_values` is not empty (PARAMS: minItems 1); explicit factor names do not reuse the factored column.
+merge_consecutive (also with set_durations), remap_columns and split_rows need none. -/
 def WfOp : Op → Prop
   | .removeRows _ vs => vs ≠ []
   | .factorColumn c _ ns => c ∉ ns.getD []
   | _ => True
 
-/-- **Every modelled `do_op` computes the documented table** (and leaves its parameters alone):
+/-- **Every `do_op` computes the documented table** (and leaves its parameters alone), for all eight operations:
 remove_rows keeps exactly the rows differing from every listed value; remove/rename are the pandas calls;
 reorder is "listed-and-present, then the others iff keep_others"; factor columns are computed from the original
-column; merge drops a row iff it and its predecessor carry the code and agree on the match columns. -/
+column; merge drops a row iff it and its predecessor carry the code and agree on the match columns, and with
+set_durations the loop over group numbers gives every absorbing row the latest end of what it absorbs; the
+KeyMap dictionary of remap_columns returns the first map_list entry of a key; the column-by-column assembly of
+split_rows' new rows gives the documented columns. -/
 theorem impl_refines_spec (o : Op) (t : Table) (h : WfOp o) : opImpl o t = (o, opSpec o t) := by
   cases o with
   | removeRows c vs => simp [opImpl, opSpec, removeRows_refines c vs t h]
@@ -488,7 +1397,16 @@ theorem impl_refines_spec (o : Op) (t : Table) (h : WfOp o) : opImpl o t = (o, o
   | renameColumns m i => rfl
   | reorderColumns o i k => simp [opImpl, opSpec, reorder_refines]
   | factorColumn c vs ns => simp [opImpl, opSpec, factor_refines c vs ns t h]
-  | mergeConsecutive c code m i => simp [opImpl, opSpec, merge_refines]
+  | mergeConsecutive c code m sd i => simp [opImpl, opSpec, merge_refines]
+  | remapColumns s d ml i is => simp [opImpl, opSpec, remap_refines]
+  | splitRows a evs rp => simp [opImpl, opSpec, split_refines]
+
+/-- set_durations never reaches `df_new.loc[-1]`: the loop over the group numbers does not fail -/
+theorem merge_durations_total (mrs : List (Bool × Row)) (O D : Column) :
+    ∃ r, (mergePlanImpl mrs).newDur O D = .ok r := by
+  rw [mergePlan_eq]
+  simp only [mergePlanSpec]
+  split <;> exact ⟨_, rfl⟩
 
 /-- **Processing order is irrelevant**: pushing any sequence of tables through one dispatcher leaves the
 operations as they were and gives, for each table, the result a fresh dispatcher would give. -/
@@ -502,25 +1420,30 @@ theorem order_independent_position (ops : List Op) (before after : List Table) (
   rw [order_independent]
   simp
 
+/-- **The result for a table is a function of (operations, table) only** — not of what the dispatcher processed
+before or will process after — and the dispatcher ends with the operations it was built with. -/
+theorem run_deterministic_function :
+    ∃ f : List Op → Table → Except OpErr Table, ∀ (ops : List Op) (before after : List Table) (t : Table),
+      (runMany ops (before ++ t :: after)).2[before.length]? = some (f ops t)
+        ∧ (runMany ops (before ++ t :: after)).1 = ops :=
+  ⟨fun ops t => (runSt ops t).2, fun ops before after t =>
+    ⟨order_independent_position ops before after t, by rw [order_independent]⟩⟩
+
 /-- **A validated list runs to completion** on every table that has, at each step, the columns the step names
-(with unique labels): no exception, and the parameters are unchanged. -/
+(with unique labels) holding values of the expected kind (`kindOk`: numeric onset/duration and source columns
+for split_rows and merge_consecutive with set_durations; convertible integer sources and, unless ignore_missing,
+keys present in map_list for remap_columns): no exception, and the parameters are unchanged. -/
 theorem validated_runs (raws : List JVal) (ops : List Op) (t : Table)
     (hvalid : validateParams raws = []) (hparse : parseOps raws = some ops)
     (hcols : hasColumns ops t = true) : ∃ t', run ops t = .ok (t', ops) := by
   have hin : ∀ o ∈ ops, inputOk o := by
     unfold validateParams at hvalid
     simp only at hvalid
-    unfold parseOps at hparse
     split at hvalid
     · next he => rw [hvalid] at he; simp at he
-    · cases hm : raws.mapM parseOp with
-      | none => rw [hm] at hvalid; simp at hvalid
-      | some pops =>
-        rw [hm] at hvalid hparse
-        simp only [Option.bind_some] at hparse hvalid
-        have hp := toOps_eq pops ops hparse
-        intro o ho
-        exact errsFrom_nil inputDataErrs 0 pops hvalid (.modelled o) (by rw [hp]; exact List.mem_map_of_mem ho)
+    · rw [hparse] at hvalid
+      intro o ho
+      exact errsFrom_nil inputDataErrs 0 ops hvalid o ho
   obtain ⟨t', ht'⟩ := runs_ok ops t hin hcols
   exact ⟨t', by simp [run, ht']⟩
 
@@ -535,27 +1458,49 @@ theorem invalid_not_run (raws : List JVal) (ts : List Table) (h : validateParams
     | cons _ _ => rfl
   simp [this]
 
+theorem postCell_prepCell (x : Cell) (h : x ≠ Cell.nan) : postCell (prepCell x) = x := by
+  cases x with
+  | str s => by_cases hs : s = naStr <;> simp [prepCell, postCell, hs]
+  | int n => rfl
+  | flt r => rfl
+  | nan => exact absurd rfl h
+
+theorem prepCell_postCell (x : Cell) (h : x ≠ Cell.str naStr) : prepCell (postCell x) = x := by
+  cases x with
+  | str s =>
+    have : s ≠ naStr := fun e => h (by rw [e])
+    simp [prepCell, postCell, this]
+  | int n => rfl
+  | flt r => rfl
+  | nan => simp [prepCell, postCell]
+
+theorem mapCells_id (f : Cell → Cell) (t : Table) (h : ∀ p ∈ t, ∀ c ∈ p.2, f c = c) : mapCells f t = t := by
+  unfold mapCells
+  have : ∀ p ∈ t, (fun p : Str × Column => (p.1, p.2.map f)) p = id p := by
+    intro p hp
+    obtain ⟨n, c⟩ := p
+    simp only [id, Prod.mk.injEq, true_and]
+    calc c.map f = c.map id := List.map_congr_left (fun x hx => h (n, c) hp x hx)
+      _ = c := List.map_id c
+  calc t.map _ = t.map id := List.map_congr_left this
+    _ = t := List.map_id t
+
 /-- **n/a cells stay n/a**: the dispatcher's conversion round trip is the identity on tables as they are read
 (no NaN cell), so an empty list returns the table and every untouched cell of a step's result is unchanged. -/
 theorem na_round_trip (t : Table) (h : ∀ p ∈ t, ∀ c ∈ p.2, c ≠ Cell.nan) : post (prep t) = t := by
   unfold post prep mapCells
   rw [List.map_map]
-  have : ∀ p ∈ t, ((fun p : Str × Column => (p.1, p.2.map postCell)) ∘
-      (fun p : Str × Column => (p.1, p.2.map prepCell))) p = p := by
-    intro p hp
-    obtain ⟨n, c⟩ := p
-    simp only [Function.comp, List.map_map, Prod.mk.injEq, true_and]
-    have : ∀ x ∈ c, (postCell ∘ prepCell) x = x := by
-      intro x hx
-      cases x with
-      | str s => by_cases hs : s = naStr <;> simp [prepCell, postCell, hs]
-      | int n => rfl
-      | flt r => rfl
-      | nan => exact absurd rfl (h (n, c) hp .nan hx)
-    calc c.map (postCell ∘ prepCell) = c.map id := List.map_congr_left this
-      _ = c := List.map_id c
-  calc t.map _ = t.map id := List.map_congr_left this
-    _ = t := List.map_id t
+  have := mapCells_id (postCell ∘ prepCell) t (fun p hp c hc => postCell_prepCell c (h p hp c hc))
+  simpa [mapCells, Function.comp_def, List.map_map] using this
+
+/-- … and between two operations: writing NaN as 'n/a' and reading it back is the identity on every result that
+does not itself hold the text 'n/a' (only remap_columns writes that text, for "no value" — and it is read back
+as NaN by the next step, like an n/a cell of the file), for all eight operations alike -/
+theorem na_round_trip_between (t : Table) (h : ∀ p ∈ t, ∀ c ∈ p.2, c ≠ Cell.str naStr) : prep (post t) = t := by
+  unfold post prep mapCells
+  rw [List.map_map]
+  have := mapCells_id (prepCell ∘ postCell) t (fun p hp c hc => prepCell_postCell c (h p hp c hc))
+  simpa [mapCells, Function.comp_def, List.map_map] using this
 
 /-! ### the unrepaired reorder_columns (DESIGN.md section 8 #12) — regression counter-examples -/
 
@@ -599,5 +1544,22 @@ example : WfOp opBA ∧ WfOp (.factorColumn ['a'] none none) ∧ WfOp (.removeRo
   simp [WfOp, opBA]
 -- the repaired code on the counter-example inputs
 example : (runMany [opBA] [tabABC, tabAB]).2[1]? = some (.ok [(['b'], [.str ['x']]), (['a'], [.int 1])]) := by decide
+
+-- the three operations of the growth round on a small events table (onset, duration, code)
+def tabEv : Table := [(onsetName, [.int 0, .int 1, .int 3]), (durationName, [.int 1, .int 4, .int 1]),
+  (['k'], [.int 2, .int 2, .int 5])]
+def opMergeDur : Op := .mergeConsecutive ['k'] (.int 2) none true false
+def opRemap : Op := .remapColumns [['k']] [['v']] [[.int 2, .str ['x']], [.int 5, .str ['y']]] false none
+def opSplit : Op := .splitRows ['e'] [(['r'], { onsetSrc := [.flt 1], duration := [.int 0], copy := some [['k']] })] true
+
+example : hasColumns [opMergeDur, opRemap] tabEv = true := by decide
+example : hasColumns [opSplit] tabEv = true := by decide
+-- rows 0 and 1 merge: the first lasts until max(0+1, 1+4) = 5; then k is mapped
+example : (runSt [opMergeDur, opRemap] tabEv).2 = .ok [(onsetName, [.int 0, .int 3]),
+    (durationName, [.flt 10, .flt 2]), (['k'], [.str ['2'], .str ['5']]), (['v'], [.str ['x'], .str ['y']])] := by decide
+-- a response row half a unit after every row, the parents removed
+example : (runSt [opSplit] tabEv).2 = .ok [(onsetName, [.flt 1, .flt 3, .flt 7]),
+    (durationName, [.int 0, .int 0, .int 0]), (['k'], [.int 2, .int 2, .int 5]),
+    (['e'], [.str ['r'], .str ['r'], .str ['r']])] := by decide
 
 end HedVerif.C17
